@@ -85,12 +85,19 @@ def build(ctx, case):
     if case["extras"] & 1:
         p.update_cache()
     if case["layout"] == "v2":
-        cfg = ConfigObj(os.path.join(root, ".signac", "config"))
+        fn_cfg = os.path.join(root, ".signac", "config")
+        st = os.stat(fn_cfg)
+        cfg = ConfigObj(fn_cfg)
         if case["ver"] == "absent":
             cfg.pop("schema_version", None)
         else:
             cfg["schema_version"] = case["ver"]
         cfg.write()
+        if case["njobs"] % 2 and os.stat(fn_cfg).st_size == st.st_size:
+            # this process has opened the project while it declared version 2; the edit keeps the file's size and, on a
+            # coarse clock or with a time-preserving copy, its time stamp
+            os.utime(fn_cfg, ns=(st.st_atime_ns, st.st_mtime_ns))
+            ctx.count("config_rewritten_with_same_size_and_mtime")
         if case["njobs"] == 0:
             shutil.rmtree(os.path.join(root, "workspace"))  # a refused project must not get one created either
         return root, want, pdoc
